@@ -1,6 +1,7 @@
 import Hgxv.Model.Wire
 import Hgxv.Model.C06
 import Hgxv.Model.C06Hif
+import Hgxv.Model.C06Text
 /-! Line protocol for C06.  State: the current content (any of the four types) and a record list.
   metadata   `-` | `k=v,...`   k: w t l u<n>   v: p<n> (pool token) q<int> (weight quanta) t<n> l<n>
   node list  `1.2.3` | `_`     directed interaction `1.2>3`
@@ -11,7 +12,11 @@ import Hgxv.Model.C06Hif
   `rec_clear` `rec_h T w m` `rec_n idx m` `rec_e inter m`   build a record list;   `load` -> ok/rej (result becomes current)
   `hgx` -> ok/rej   (populate ∘ expose through the pickled dict)
   `hgr tok..`  tok = skip | n,n,..     -> digest | rej
-  `hif incs nodes edges`                 -> nodes keys incidences empties | rej -/
+  `hif incs nodes edges`                 -> nodes keys incidences empties | rej
+  `frame L`   L = top-level pieces of a text file, one letter each: o `[`  s `,`  i one value  c `]`  (x = anything else)
+              -> `k;e`  k = number of records `readText` returns (the i-th value carries the number i) or `rej`,
+                        e = 1 iff L is letter by letter what `writeText` writes for k records (0 when rej); beyond
+                        2000 records the comparison uses `framed` (= `writeText` by `C06_text_framing`) -/
 open Wire C06
 
 def parseKey (s : String) : Option Key :=
@@ -136,7 +141,29 @@ def parsePairs (s : String) : Option (List (Nat × Nat)) :=
     | [a, b] => do let x ← a.toNat?; let y ← b.toNat?; pure (x, y)
     | _ => none)
 
+def parsePieces (cs : List Char) (i : Nat) : Option (List (Piece Nat)) :=
+  match cs with
+  | [] => some []
+  | 'o' :: r => (parsePieces r i).map (.opn :: ·)
+  | 's' :: r => (parsePieces r i).map (.sep :: ·)
+  | 'c' :: r => (parsePieces r i).map (.cls :: ·)
+  | 'i' :: r => (parsePieces r (i + 1)).map (.item i :: ·)
+  | _ => none
+
+def frameAnswer (l : String) : String :=
+  match parsePieces l.toList 0 with
+  | none => "rej;0"
+  | some ps =>
+    match readText ps with
+    | none => "rej;0"
+    | some rs =>
+      -- `writeText` appends at the end of its output list (quadratic): beyond 2000 records the equal `framed rs`
+      -- (theorem `C06_text_framing`: `writeText rs = framed rs` for every `rs`) is compared instead
+      let same := if rs.length ≤ 2000 then decide (writeText rs = ps) else decide (framed rs = ps)
+      toString rs.length ++ ";" ++ showBool same
+
 def step (s : St) : List String → St × String
+  | ["frame", l] => (s, frameAnswer l)
   | ["begin", t, w] =>
     match parseType t with
     | some ty => ({ s with cur := emptyOf ty (w = "1") false }, "ok")
